@@ -2,8 +2,10 @@ package checks
 
 import (
 	"fmt"
+	"math"
 	"os"
 	"path/filepath"
+	"strings"
 
 	"github.com/gopatchy/bkl"
 	"verif/core"
@@ -429,7 +431,9 @@ func buildC01(tier string) *core.Plan {
 
 	// scalars of different kinds that print alike ("1" and 1, "true" and true, "[1]" and [1]): an
 	// override is useless exactly when the value is the same value, not when it looks the same
-	kinds := []any{1, "1", 0, "0", true, "true", false, "false", 1.5, "1.5", "x", "", "<nil>", "[1]", []any{1}, "map[]", map[string]any{}, "map[a:1]", map[string]any{"a": 1}}
+	kinds := []any{1, "1", 0, "0", true, "true", false, "false", 1.5, "1.5", "x", "", "<nil>", "[1]", []any{1}, "map[]", map[string]any{}, "map[a:1]", map[string]any{"a": 1},
+		// neighbours that a comparison through float64, a hash prefix or a length would confuse
+		-1, 9007199254740992, 9007199254740993, math.MaxInt64, math.MaxInt64 - 1, math.MinInt64, 0.3, 0.30000000000000004, 1e21, "é", "e\u0301", "ab", "ba", strings.Repeat("x", 64) + "a", strings.Repeat("x", 64) + "b"}
 	nk := int64(len(kinds))
 	kindSpace := core.Space{Name: "scalar-kinds-that-print-alike", N: nk * nk,
 		Desc: func(i int64) any { return map[string]any{"parent_value": kinds[i/nk], "child_value": kinds[i%nk]} },
